@@ -1,6 +1,7 @@
 import PyxModel.Sexp
 import PyxModel.Load
 import PyxModel.LoadHeap
+import PyxModel.LoadSharing
 import Driver.LoadCodec
 import Gen.Sharing
 
@@ -16,16 +17,6 @@ import Gen.Sharing
 -/
 namespace Pyx.Driver.C18
 open Pyx Pyx.Sexp Pyx.Load Pyx.Heap Pyx.Driver.LoadCodec
-
-def genByRef (cls field : String) : Bool :=
-  match Pyx.Gen.Sharing.byRef.find? (fun e => e.1 = cls ∧ e.2.1 = field) with
-  | some e => !e.2.2.isEmpty
-  | none => false
-
-/-- the sharing relation the source has now -/
-def genSharing : Sharing :=
-  ⟨genByRef "CreateClassStmt" "attributes",
-   genByRef "CreateAssociationStmt" "source_keys" || genByRef "CreateAssociationStmt" "target_keys"⟩
 
 def decMut : Sexp → Option Mut
   | list [sym "append-attr", str k, str n, ty] => (decTy ty).map (Mut.appendAttr k n)
